@@ -914,7 +914,7 @@ impl Prop for C04 {
     }
     fn n_blocks(&self, ctx: &Ctx) -> usize {
         let mut rng = Rng::new(0);
-        25 * tag_list_options(None, thorough(ctx), &mut rng).len()
+        25 * tag_list_options(None, thorough(ctx) && !ctx.leg.slow(), &mut rng).len()
     }
     fn exhaustive(&self, _: &Ctx) -> bool {
         true
